@@ -23,19 +23,31 @@ MINQ = 1500
 
 
 class DRRHarness(ec.Harness):
-    """names the kernel Stores of the scheduler (created lazily by a defaultdict) when their events are processed"""
+    """names the kernel Stores of the scheduler(s) (created lazily by a defaultdict) when their events are processed;
+    with several instances every name carries the instance's tag"""
+    insts = ()          # [(tag, scheduler)]
 
     def classify(self, ev):
         res = getattr(ev, "resource", None)
-        s = self.element
-        if res is not None and s is not None:
+        if res is not None:
             tn = type(ev).__name__
-            if res is s.packets_available:
-                return [tn, "tok"]
-            for k, st in list(s.stores.items()):
-                if st is res:
-                    return [tn, "s:%d" % k]
+            for tag, s in self.insts:
+                if res is s.packets_available:
+                    return [tn, "tok" + tag]
+                for k, st in list(s.stores.items()):
+                    if st is res:
+                        return [tn, "s:%d%s" % (k, tag)]
         return super().classify(ev)
+
+
+class LazyTarget:
+    """put() goes to an instance that may not exist yet when the driver process is created"""
+
+    def __init__(self, insts, i):
+        self.insts, self.i = insts, i
+
+    def put(self, p):
+        return self.insts[self.i].put(p)
 
 
 def classes_of(case):
@@ -71,7 +83,50 @@ SIZESETS = [
 ]
 
 
+def shift_uids(w, off):
+    pk = {str(int(u) + off): sp for u, sp in w["packets"].items()}
+    dr = [{"late": d["late"], "bursts": [[t, [u + off for u in uids]] for t, uids in d["bursts"]]} for d in w["drivers"]]
+    return {"packets": pk, "drivers": dr}
+
+
 def gen_case(rng, tier, prop_id):
+    if rng.random() < 0.15:
+        return gen_case2(rng, tier, prop_id)
+    return gen_case1(rng, tier, prop_id)
+
+
+def gen_case2(rng, tier, prop_id):
+    """two DRR instances alive and busy at the same time in ONE Environment (two ports of a switch): same or different
+    weight tables, at least one shared class id, interleaved workloads"""
+    a = gen_case1(rng, tier, prop_id, n_max=rng.choice([6, 10, 14]))
+    b = gen_case1(rng, tier, prop_id, n_max=rng.choice([6, 10, 14]))
+    r = rng.random()
+    if r < 0.45:                       # same table, same mapping
+        b["weights"], b["f2c"] = [list(x) for x in a["weights"]], [list(x) for x in a["f2c"]]
+    elif r < 0.75:                     # same class ids, other weights / order
+        ws = [[c, rng.choice([1, 2, 3, 4])] for c, _ in a["weights"]]
+        rng.shuffle(ws)
+        b["weights"], b["f2c"] = ws, [list(x) for x in a["f2c"]]
+    else:                              # another table that shares at least one class id
+        ca = [c for c, _ in a["weights"]]
+        cb = [c for c, _ in b["weights"]]
+        if not set(ca) & set(cb):
+            old, new = cb[0], rng.choice(ca)
+            b["weights"] = [[new if c == old else c, w] for c, w in b["weights"]]
+            b["f2c"] = sorted([f, new if c == old else c] for f, c in b["f2c"])
+    if b["f2c"] is not None:
+        flows = sorted({f for f, _ in b["f2c"]})
+        pk = b["workload"]["packets"]
+        for sp in pk.values():
+            if sp["flow"] not in flows:
+                sp["flow"] = rng.choice(flows)
+    b["workload"] = shift_uids(b["workload"], 100)
+    if rng.random() < 0.5:
+        b["rate"] = a["rate"]
+    return {"kind": "drr2", "insts": [a, b]}
+
+
+def gen_case1(rng, tier, prop_id, n_max=None):
     ncl = rng.choice([1, 2, 2, 3, 3, 4])
     cls = rng.sample(range(0, 6), ncl)
     weights = [[c, rng.choice([1, 1, 2, 2, 3, 4])] for c in cls]
@@ -92,53 +147,141 @@ def gen_case(rng, tier, prop_id):
     flows = tuple(sorted({f for f, _ in f2c}))
     rate = rng.choice([2048, 4096, 8192, 8192, 16384, 65536])
     sizes = rng.choice(SIZESETS)
-    w = ec.gen_workload(rng, flows=flows, n_max=rng.choice([6, 10, 16, 24]), sizes=sizes,
+    w = ec.gen_workload(rng, flows=flows, n_max=n_max or rng.choice([6, 10, 16, 24]), sizes=sizes,
                         burst_p=rng.choice([0.35, 0.6, 0.85]), horizon=rng.choice([8, 16, 40]))
     pre = [rng.random() < 0.3 for _ in w["drivers"]]
     return {"kind": "drr", "rate": rate, "weights": weights, "f2c": f2c, "workload": w, "pre": pre}
 
 
 def run_impl(case):
+    if case["kind"] == "drr2":
+        obs = run_many(case["insts"])
+        return {"multi": obs[:-1], "interfere": obs[-1], "raised": obs[0]["raised"], "exhausted": obs[0]["exhausted"]}
+    return run_many([case])[0]
+
+
+def run_many(cases):
+    """run one or several DRR instances in ONE Environment; returns one observation per instance (the global clock
+    advances and its own put/step entries, sampled on its own public state) and, for several, the interference notes"""
     import contextlib
     import io
     from onl.sim import Environment
     from onl.scheduler.drr import DRR
     env = Environment()
     h = DRRHarness(env)
-    w = case["workload"]
-    h.add_packets(w["packets"])
-    pre = case.get("pre") or [False] * len(w["drivers"])
-    for d, p in zip(w["drivers"], pre):
-        if p:
-            h.add_driver(d["bursts"], late=d["late"])
-    cls = classes_of(case)
-    flows = flows_of(case)
-    tbl = f2c_of(case)
-    sink = io.StringIO()
-    with contextlib.redirect_stdout(sink):
-        if is_identity(case) and case.get("default_f2c", True):
-            s = DRR(env, case["rate"], {c: wt for c, wt in case["weights"]})
+    n = len(cases)
+    tags = [""] if n == 1 else ["A", "B", "C"][:n]
+    owner = {}
+    insts = []
+    samplers = []
+    for i, c in enumerate(cases):
+        h.add_packets(c["workload"]["packets"])
+        for u in c["workload"]["packets"]:
+            owner[int(u)] = i
+    pres = [c.get("pre") or [False] * len(c["workload"]["drivers"]) for c in cases]
+    for i, c in enumerate(cases):
+        for d, p in zip(c["workload"]["drivers"], pres[i]):
+            if p:
+                h.add_driver(d["bursts"], late=d["late"], target=LazyTarget(insts, i))
+
+    def make(i, c):
+        cls = classes_of(c)
+        flows = flows_of(c)
+        tbl = f2c_of(c)
+        if is_identity(c) and c.get("default_f2c", True):
+            s = DRR(env, c["rate"], {k: wt for k, wt in c["weights"]})
         else:
-            s = DRR(env, case["rate"], {c: wt for c, wt in case["weights"]}, flow2class=lambda f: tbl.get(f, f))
-        s.out = h.tap("out")
-        h.attach(s)
+            s = DRR(env, c["rate"], {k: wt for k, wt in c["weights"]}, flow2class=lambda f: tbl.get(f, f))
+        s.out = h.tap("out" + tags[i])
+        if tags[i]:
+            s.proc._generator.__name__ = "run" + tags[i]
+            orig = s.send_packet
+
+            def send_packet(packet, orig=orig, tag=tags[i]):
+                g = orig(packet)
+                g.__name__ = "send_packet" + tag
+                return g
+            s.send_packet = send_packet
 
         def sample():
             cur = s.current_packet
-            return [[[c, ec.qs(s.deficit[c])] for c in cls],
+            return [[[k, ec.qs(s.deficit[k])] for k in cls],
                     [[f, s.queue_count.get(f, 0), s.queue_byte_size.get(f, 0)] for f in flows],
-                    [[c, getattr(s.head_of_line[c], "uid", -1) if c in s.head_of_line else None] for c in cls],
+                    [[k, getattr(s.head_of_line[k], "uid", -1) if k in s.head_of_line else None] for k in cls],
                     None if cur is None else getattr(cur, "uid", -1),
-                    [[c, len(s.stores[c].items) if c in s.stores else 0] for c in cls],
+                    [[k, len(s.stores[k].items) if k in s.stores else 0] for k in cls],
                     len(s.packets_available.items), s.packets_received, s.total_packets]
-        h.after_action(sample)
-        for d, p in zip(w["drivers"], pre):
-            if not p:
-                h.add_driver(d["bursts"], late=d["late"])
+        insts.append(s)
+        samplers.append(sample)
+
+    sink = io.StringIO()
+    with contextlib.redirect_stdout(sink):
+        for i, c in enumerate(cases):
+            make(i, c)
+        h.insts = list(zip(tags, insts))
+        h.attach(insts[0])
+        h.after_action(lambda: [f() for f in samplers])
+        for i, c in enumerate(cases):
+            for d, p in zip(c["workload"]["drivers"], pres[i]):
+                if not p:
+                    h.add_driver(d["bursts"], late=d["late"], target=insts[i])
         log = h.run(max_steps=40000, until=HORIZON)
-    quantum = [[c, ec.qs(s.quantum[c])] for c in cls if c in s.quantum]
-    return {"log": log, "raised": h.raised, "exhausted": h.exhausted, "quantum": quantum,
-            "extra_keys": sorted(k for k in s.queue_count if k not in flows), "stdout": sink.getvalue()[:200]}
+    logs = [[] for _ in range(n)]
+    interfere = []
+    prev = None
+    for e in log:
+        k = e[0]
+        samples = e[-1]
+        who = None
+        if k == "adv":
+            for i in range(n):
+                logs[i].append(["adv", e[1], samples[i]])
+        elif k == "put":
+            who = owner[e[1]]
+            for o in e[2]:
+                o[1] = "out"
+            logs[who].append(["put", e[1], e[2], samples[who]])
+        elif k in ("step", "raise"):
+            tgt = e[1][1] if e[1] else ""
+            who = 0
+            if n > 1:
+                who = next((i for i in range(n) if tgt.endswith(tags[i])), None)
+                if who is None:
+                    interfere.append(f"instances-interfere: kernel step {e[1]} cannot be attributed to an instance")
+                    who = 0
+                t = tags[who]
+                tgt = tgt.replace("send_packet" + t, "send_packet").replace("run" + t, "run")
+                if (tgt.startswith("tok") or tgt.startswith("s:")) and tgt.endswith(t):
+                    tgt = tgt[:-len(t)]
+                for o in e[2]:
+                    if o[1] != "out" + t:
+                        interfere.append(f"instances-interfere: packet {o[2]} of instance {t} came out of tap {o[1]}")
+                    elif owner.get(o[2]) != who:
+                        interfere.append(f"instances-interfere: packet {o[2]} put into instance {tags[owner.get(o[2], 0)]} left instance {t}")
+            for o in e[2]:
+                o[1] = "out"
+            entry = [k, [e[1][0], tgt] if e[1] else e[1], e[2]] + ([e[3]] if k == "raise" else []) + [samples[who]]
+            logs[who].append(entry)
+        if prev is not None and n > 1 and len(interfere) < 2:
+            for i in range(n):
+                if i != who and samples[i] != prev[i]:
+                    what = [nm for nm, x, y in zip(SAMPLE_FIELDS, prev[i], samples[i]) if x != y]
+                    interfere.append(f"instances-interfere: a {k} action of instance {tags[who] if who is not None else '-'} "
+                                     f"changed {what} of instance {tags[i]}: {[y for x, y in zip(prev[i], samples[i]) if x != y][:2]}")
+        prev = samples
+    out = []
+    for i, (c, s) in enumerate(zip(cases, insts)):
+        cls = classes_of(c)
+        out.append({"log": logs[i], "raised": h.raised, "exhausted": h.exhausted,
+                    "quantum": [[k, ec.qs(s.quantum[k])] for k in cls if k in s.quantum],
+                    "extra_keys": sorted(k for k in s.queue_count if k not in flows_of(c)), "stdout": sink.getvalue()[:200]})
+    if n > 1:
+        out.append(interfere[:2])
+    return out
+
+
+SAMPLE_FIELDS = ["deficit", "queue_count/queue_byte_size", "head_of_line", "current_packet", "len(stores[c].items)",
+                 "len(packets_available.items)", "packets_received", "total_packets"]
 
 
 # ---- log -> model actions ----------------------------------------------------------------------------
@@ -202,6 +345,11 @@ def actions(case, obs):
 
 
 def agree_term(case, obs):
+    if case["kind"] == "drr2":
+        if obs["interfere"]:
+            return "false (* instances interfere *)"
+        ts = [agree_term(c, o) for c, o in zip(case["insts"], obs["multi"])]
+        return "(" + ") && (".join(ts) + ")"
     if obs["raised"]:
         return "false"
     acts, err = actions(case, obs)
@@ -563,7 +711,7 @@ def stats(case, obs):
 
 class DRRPart:
     name = "drr"
-    kinds = ["drr"]
+    kinds = ["drr", "drr2"]
     serves = ["C15", "C12", "C08"]
     weight = 2
     coq_imports = ["From ONL Require Import Base.Cmp Elem.Packet Elem.StoreQ Elem.DRR."]
@@ -572,7 +720,11 @@ class DRRPart:
             "(55%) or a table mapping 1-3 flows onto each class, flow ids disjoint from or overlapping with the class ids; "
             "packet sizes from sets that mix sizes below, at and above the quantum (64..4096, 1500/1501, 2999/3000); rates "
             "2^11..2^16 bit/s so that 8*size/rate is dyadic and transmission ends fall on the arrival lattice; 1-3 driver "
-            "processes with bursts, idle gaps and `late` zero-delay yields, each created before or after the scheduler")
+            "processes with bursts, idle gaps and `late` zero-delay yields, each created before or after the scheduler; "
+            "kind drr2 (15%): TWO DRR instances alive and busy at the same time in one Environment (two ports of a switch) "
+            "with the same table, the same class ids with other weights, or another table sharing a class id, interleaved "
+            "workloads; each instance's log is replayed against its own copy of the model and an action of one instance "
+            "must not change the public state (deficit, counters, stores) of the other")
     nontrivial_rule = {
         "C15": _gen + "; non-trivial = at least two classes were backlogged at some transmission end and some head packet "
                       "was parked as unaffordable or some class emptied and refilled; distinct by hash",
@@ -615,6 +767,11 @@ class DRRPart:
         return None
 
     def monitor(self, case, obs, prop_id):
+        if case["kind"] == "drr2":
+            msgs = list(obs["interfere"])
+            for c, o in zip(case["insts"], obs["multi"]):
+                msgs += self.monitor(c, o, prop_id)
+            return msgs[:3]
         if prop_id == "C15":
             return mon_c15(case, obs)
         if prop_id == "C12":
@@ -624,6 +781,8 @@ class DRRPart:
         return []
 
     def nontrivial(self, case, obs, prop_id):
+        if case["kind"] == "drr2":
+            return (not obs["raised"]) and any(self.nontrivial(c, o, prop_id) for c, o in zip(case["insts"], obs["multi"]))
         if obs["raised"]:
             return False
         s = stats(case, obs)
@@ -634,6 +793,12 @@ class DRRPart:
         return s["n"] >= 3 and s["flows"] >= 2
 
     def shrink(self, case):
+        if case["kind"] == "drr2":
+            for i, c in enumerate(case["insts"]):
+                for c2 in self.shrink(c):
+                    if c2["workload"]["packets"]:
+                        yield {**case, "insts": case["insts"][:i] + [c2] + case["insts"][i + 1:]}
+            return
         for w in ec.shrink_workload(case["workload"]):
             pre = (case.get("pre") or [])[:len(w["drivers"])]
             pre = pre + [False] * (len(w["drivers"]) - len(pre))
@@ -650,6 +815,13 @@ class DRRPart:
             yield {**case, "pre": [False] * len(case["workload"]["drivers"])}
 
     def describe(self, case, obs):
+        if case["kind"] == "drr2":
+            a, b = case["insts"][0], case["insts"][1]
+            keys = ["drr2"]
+            keys.append("drr2:same-table" if a["weights"] == b["weights"] else
+                        "drr2:same-classes-other-weights" if sorted(classes_of(a)) == sorted(classes_of(b)) else "drr2:other-table")
+            keys.append("drr2:shared-class-ids=%d" % len(set(classes_of(a)) & set(classes_of(b))))
+            return keys
         keys = ["drr", "drr:classes=%d" % len(case["weights"]), "drr:packets=%d" % min(len(case["workload"]["packets"]), 24),
                 "drr:drivers=%d" % len(case["workload"]["drivers"]),
                 "drr:f2c=" + ("identity" if is_identity(case) else "many-to-one")]
